@@ -138,7 +138,13 @@ TNext == /\ verdict = "ok" /\ l <= Len(Traces[tid])
                /\ (v # "ok") => PrintT(Detail(s2, e, v))
                \* (a consumer that an in-place update failed to re-route - pending F-C09-1 - can close a reference cycle
                \*  through the mutated tensor's new graph: objects that only a cycle collector would free)
-               /\ LET tk == s2.kf \cup (IF v = "leak" /\ s2.pend # {} THEN {"F-C09-1"} ELSE {}) IN
+               \* KNOWN FINDING F-C08-5: a recorded in-place update whose target array is read-only and is refused with
+               \* ValueError although NumPy accepts the statement: the lock tables did not know the (read-only) array - whether
+               \* they do depends on object identities left over in them, so the refusal is not even reproducible
+               /\ LET roref == e.exc = "ValueError" /\ e.exc_np = "none" /\ InPlaceStmt(e.stmt) /\ st.track
+                               /\ ~prev.t[Target(e.stmt)].wr
+                      tk == s2.kf \cup (IF v = "leak" /\ s2.pend # {} THEN {"F-C09-1"} ELSE {})
+                                  \cup (IF v = "exc" /\ roref THEN {"F-C08-5"} ELSE {}) IN
                   (v # "ok" /\ tk # {}) => PrintT(<<"TAINT", tid, tk>>)
 TSpec == TInit /\ [][TNext]_vars
 =============================================================================
